@@ -228,6 +228,28 @@ PROPS = {
                         "z3 is complete on the emitted fragment (hypothesis ConsistentAns)"],
         "n": {"quick": 200, "thorough": 3000},
     },
+    "C06": {
+        "theorems": ["C06_scheduled_as_mandatory", "C06_parked", "C06_busy_parked", "C06_blocks_nobody",
+                     "C06_constraint_inert", "C06_no_indicator_contribution", "C11_unscheduled_no_assignment",
+                     "C03_raw_sound"],
+        "profiles": [("all", 0.5), ("taskc", 0.25), ("obj", 0.25)],
+        "relevant": lambda o: True,
+        "spec": None,
+        "exact": True,
+        "run_profiles": ["frag"],
+        "n_run": {"quick": 80, "thorough": 1500},
+        "run_check": __import__("harness.solverprops", fromlist=["x"]).run_c06,
+        "nontrivial": lambda s: any(d["op"] == "task" and d.get("optional") for d in s),
+        "rule": "ENC with exactness over scripts with optional tasks (35 % of all tasks) in every profile; RUN (deletion "
+                "search): on 'frag' scripts an optional task t is chosen, the script without t (its requirements and "
+                "every constraint naming it, ids re-mapped) is built, and up to 6 schedules of each side are pinned into "
+                "the other (S with t unscheduled vs S minus t, both directions) with real z3; non-trivial = the script "
+                "has an optional task; distinct = distinct script text",
+        "assumptions": ["the equality of the two schedule sets is decided by ENC + RUN inside the fragment, the local inertness "
+                        "facts by theorems; buffers (F16), release dates (F7), work amounts (F26), groups / ScheduleN (F18), "
+                        "interruptions (F24), delayed requirements (F19) of optional tasks are recorded findings"],
+        "n": {"quick": 200, "thorough": 3000},
+    },
     "C07": {
         "theorems": ["incLoop_spec", "C07_anytime", "C07_optimal"],
         "profiles": [("obj", 1.0)],
